@@ -77,6 +77,51 @@ Record jraw := mkJraw {
 
 Definition msg0 : msg := mkMsg 0 x00 [] status_zero [] x00 [].
 
+(* ---- the framing jsonproto and pbproto share:
+        {4-byte size}{pipe length}{pipe ids}{payload through the pipe} ---- *)
+
+(* Pack, given the marshalled payload: frame and the size set on the message. A size above
+   the limit is refused by SetSize (error ignored), Size() of the fresh message stays 0 and
+   the write into the 4-byte buffer at index 4 panics. *)
+Definition pfx_pack (lim : N) (p : list filter) (payload : bytes) : res (bytes * N) :=
+  b <- of_option (pipe_pack p payload) ;;
+  let ids := pipe_ids p in
+  let size := (1 + blen ids + blen b) mod 4294967296 in
+  if lim <? size then Panic
+  else Ok (be_of_N 4 size ++ n2b (blen ids) :: ids ++ b, size).
+
+(* Unpack from the head of the stream: message, pipe ids, size, rest; [parse] is what the
+   protocol does with the payload. Where the code panics or fails depending on the capacity
+   of a recycled buffer (pipe length beyond the frame) the model answers Err; both end the
+   connection. A frame of size 0 is accepted as an empty message. *)
+Definition pfx_unpack (parse : bytes -> res msg) (reg : registry) (lim : N) (s : bytes)
+  : res (msg * list byte * N * bytes) :=
+  '(b4, s) <- take 4 s ;;
+  let size := N_of_be b4 in
+  if lim <? size then Err
+  else if size =? 0 then Ok (msg0, [], 0, s)
+  else
+    '(buf, s) <- take size s ;;
+    match buf with
+    | [] => Err
+    | x :: d =>
+        let xl := b2n x in
+        payload <-
+          (if xl =? 0 then Ok ([], d)
+           else
+             if blen d <? xl then Err
+             else
+               let ids := firstn (N.to_nat xl) d in
+               match pipe_append reg [] ids with
+               | (_, Some _) => Err
+               | (p, None) =>
+                   y <- of_option (pipe_unpack p (skipn (N.to_nat xl) d)) ;; Ok (pipe_ids p, y)
+               end) ;;
+        let '(ids, y) := payload in
+        m <- parse y ;;
+        Ok (m, ids, size, s)
+    end.
+
 Section Json.
   Variable quote_hi : bytes -> bytes.
   Variable gjson_other : bytes -> jraw.
@@ -108,16 +153,9 @@ Section Json.
   Definition json_payload (esc : byte -> bytes) (m : msg) : bytes :=
     json_members esc m (m_body m) ++ [ "}"%byte ].
 
-  (* jsonproto.Pack: frame and the size set on the message. A size above the limit is
-     refused by SetSize (error ignored), Size() of the fresh message stays 0 and the write
-     into the 4-byte buffer at index 4 panics. *)
+  (* jsonproto.Pack *)
   Definition json_pack (esc : byte -> bytes) (lim : N) (p : list filter) (m : msg)
-    : res (bytes * N) :=
-    b <- of_option (pipe_pack p (json_payload esc m)) ;;
-    let ids := pipe_ids p in
-    let size := (1 + blen ids + blen b) mod 4294967296 in
-    if lim <? size then Panic
-    else Ok (be_of_N 4 size ++ n2b (blen ids) :: ids ++ b, size).
+    : res (bytes * N) := pfx_pack lim p (json_payload esc m).
 
   (* jsonSubProto.Pack: the pipe is applied to the body; SetSize's refusal is ignored *)
   Definition wsj_payload (esc : byte -> bytes) (ids : list byte) (m : msg) (body : bytes) : bytes :=
@@ -337,37 +375,11 @@ Section Json.
     Ok (mkMsg (wrap32 (jr_seq j)) (wrap8 (jr_mtype j)) (jr_method j) st meta
               (wrap8 (jr_codec j)) body).
 
-  (* jsonproto.Unpack from the head of the stream: message, pipe ids, size, rest.
-     Where the code panics or fails depending on the capacity of a recycled buffer (pipe
-     length beyond the frame) the model answers Err; both end the connection. *)
+  (* jsonproto.Unpack: the gjson calls and the header setters on the payload *)
+  Definition json_parse (y : bytes) : res msg :=
+    let j := gjson_json y in msg_of_jraw j (jr_body j).
   Definition json_unpack (reg : registry) (lim : N) (s : bytes)
-    : res (msg * list byte * N * bytes) :=
-    '(b4, s) <- take 4 s ;;
-    let size := N_of_be b4 in
-    if lim <? size then Err
-    else if size =? 0 then Ok (msg0, [], 0, s)
-    else
-      '(buf, s) <- take size s ;;
-      match buf with
-      | [] => Err
-      | x :: d =>
-          let xl := b2n x in
-          payload <-
-            (if xl =? 0 then Ok ([], d)
-             else
-               if blen d <? xl then Err
-               else
-                 let ids := firstn (N.to_nat xl) d in
-                 match pipe_append reg [] ids with
-                 | (_, Some _) => Err
-                 | (p, None) =>
-                     y <- of_option (pipe_unpack p (skipn (N.to_nat xl) d)) ;; Ok (pipe_ids p, y)
-                 end) ;;
-          let '(ids, y) := payload in
-          let j := gjson_json y in
-          m <- msg_of_jraw j (jr_body j) ;;
-          Ok (m, ids, size, s)
-      end.
+    : res (msg * list byte * N * bytes) := pfx_unpack json_parse reg lim s.
 
   (* jsonSubProto.Unpack of ONE websocket message [b] (ioutil.ReadAll of the message):
      every Append error is ignored, one id at a time *)
